@@ -74,7 +74,7 @@ def last_tag(h):
 
 def run_splits(ctx, tg, dis):
     for i, (N, T1, T2) in enumerate(cases(ctx.rng, ctx.quick())):
-        T3 = str(Decimal(T1) + Decimal(T2))
+        T3 = dec(Decimal(T1) + Decimal(T2))
         kw = dict(n=16, steps=N, outstep=10 ** 6, save=1, gap=0, renorm=-1, padding=2, currents=[3e-4], zoom=1.3)
         wd = hc.workdir()
         try:
